@@ -25,15 +25,16 @@ import (
 )
 
 type fn struct {
-	name     string
-	body     *ast.BlockStmt
-	acquires map[string]bool // locks taken directly
-	calls    map[string]bool // same-package callees
-	edges    [][3]string     // held, acquired, where
-	unbal    []string
-	callHeld []callSite
-	access   []fieldAccess // uses of a guarded field, with the locks held there
-	waits    []string      // X.Wait() on a field with locks held
+	name        string
+	body        *ast.BlockStmt
+	acquires    map[string]bool // locks taken directly
+	calls       map[string]bool // same-package callees
+	edges       [][3]string     // held, acquired, where
+	unbal       []string
+	callHeld    []callSite
+	access      []fieldAccess // uses of a guarded field, with the locks held there
+	waits       []string      // X.Wait() on a field with locks held
+	deferInLoop []string      // deferred unlocks written inside a loop body (they run when the function returns, not per iteration)
 }
 
 // fieldAccess: a use of one of the guarded fields (a selector x.<field>)
@@ -102,6 +103,7 @@ type walker struct {
 	fset *token.FileSet
 	f    *fn
 	recv string
+	loop int // depth of enclosing for / range statements
 	// the selector expressions that are being assigned to, and those assigned an append to themselves
 	lhs, appendLhs map[*ast.SelectorExpr]bool
 }
@@ -256,6 +258,11 @@ func (w *walker) stmt(s ast.Stmt, h *heldSet) {
 	case *ast.ExprStmt:
 		w.exprCalls(t.X, h)
 	case *ast.DeferStmt:
+		if sel, ok := t.Call.Fun.(*ast.SelectorExpr); ok && w.loop > 0 && (sel.Sel.Name == "Unlock" || sel.Sel.Name == "RUnlock") {
+			if m := mutexName(sel.X); m != "" {
+				w.f.deferInLoop = append(w.f.deferInLoop, fmt.Sprintf("(%q, %q)", w.f.name, m))
+			}
+		}
 		w.call(t.Call, h, true)
 	case *ast.GoStmt:
 		// runs concurrently: its locks are not taken while ours are held
@@ -316,11 +323,15 @@ func (w *walker) stmt(s ast.Stmt, h *heldSet) {
 		w.fields(t.Cond, h)
 		w.fields(t.Post, h)
 		hb := h.clone()
+		w.loop++
 		w.stmts(t.Body.List, &hb)
+		w.loop--
 	case *ast.RangeStmt:
 		w.exprCalls(t.X, h)
 		hb := h.clone()
+		w.loop++
 		w.stmts(t.Body.List, &hb)
+		w.loop--
 	case *ast.SwitchStmt:
 		w.stmt(t.Init, h)
 		w.exprCalls(t.Tag, h)
@@ -707,6 +718,13 @@ func main() {
 			ug := pf.unguarded(g)
 			b.WriteString(fmt.Sprintf("/-- uses of a mutex-guarded field of package %s (%s) outside its mutex -/\ndef %sUnguarded : List String := [%s]\n\n", pkg, strings.Join(fs, ", "), pkg, quoteAll(ug)))
 			summary[pkg+"_unguarded"] = len(ug)
+			var dl []string
+			for _, name := range pf.order {
+				dl = append(dl, pf.fns[name].deferInLoop...)
+			}
+			sort.Strings(dl)
+			b.WriteString(fmt.Sprintf("/-- deferred unlocks of package %s written inside a loop body: the mutex stays locked until the function\n    returns, through every later iteration and whatever the function waits for in between -/\ndef %sDeferredUnlockInLoop : List (String × String) := [%s]\n\n", pkg, pkg, strings.Join(dl, ", ")))
+			summary[pkg+"_deferred_unlock_in_loop"] = len(dl)
 			wr := pf.writesUnderReadLock(g)
 			b.WriteString(fmt.Sprintf("/-- assignments to a mutex-guarded field of package %s made with the mutex held for reading only -/\ndef %sWritesUnderReadLock : List String := [%s]\n\n", pkg, pkg, quoteAll(wr)))
 			summary[pkg+"_writes_under_rlock"] = len(wr)
